@@ -1,9 +1,24 @@
 //! Property checks: which engines decide which property, budgets, evidence.
 
+use crate::engines::conc::Conc;
 use crate::engines::hist::{Hist, Verdict};
 use crate::runner::*;
 use serde_json::{json, Value};
+use std::process::{Command, Stdio};
 use std::time::{Duration, Instant};
+
+/// Engines are looked up by key (worker processes, replay files).
+pub fn engine_by_key(key: &str) -> Option<Box<dyn DynEngine>> {
+    Some(match key {
+        "hist:contract" => Box::new(Hist { verdict: Verdict::Contract }),
+        "hist:mirror" => Box::new(Hist { verdict: Verdict::Mirror }),
+        "hist:symmetry" => Box::new(Hist { verdict: Verdict::Symmetry }),
+        "conc" => Box::new(Conc { only_invariant: None }),
+        "conc:mirror" => Box::new(Conc { only_invariant: Some(true) }),
+        "conc:symmetry" => Box::new(Conc { only_invariant: Some(false) }),
+        _ => return None,
+    })
+}
 
 pub struct PartOut {
     pub engine: String,
@@ -14,32 +29,63 @@ pub struct PartOut {
     pub distinct_key: String,
 }
 
-/// Runs one engine for one property: seeded batch, then (on a violation)
-/// minimisation, replay file, and a replay of that file in a fresh process.
-pub fn run_part<E: Engine>(prop: &str, e: &E, seed: u64, runs: u64, tier: Tier, cap_s: u64, distinct_key: &str) -> PartOut {
-    let tag = format!("{prop}/{}", e.name());
-    let out = run_batch(e, &tag, seed, runs, tier, Duration::from_secs(cap_s));
+fn confirm_in_fresh_process(path: &str) -> Option<i32> {
+    let exe = std::env::current_exe().unwrap();
+    let mut child = Command::new(exe)
+        .arg("replay")
+        .arg(path)
+        .arg("--quiet")
+        .stdin(Stdio::null())
+        .spawn()
+        .ok()?;
+    let start = Instant::now();
+    loop {
+        if let Ok(Some(st)) = child.try_wait() {
+            return st.code();
+        }
+        if start.elapsed() > Duration::from_secs(90) {
+            let _ = child.kill();
+            let _ = child.wait();
+            return Some(124);
+        }
+        std::thread::sleep(Duration::from_millis(5));
+    }
+}
+
+/// Runs one engine for one property: seeded batch on worker processes, then
+/// (on a violation) minimisation, replay file, and a replay of that file in a
+/// fresh process.
+pub fn run_part(prop: &str, key: &str, seed: u64, runs: u64, tier: Tier, cap_s: u64, distinct_key: &str) -> PartOut {
+    let e = engine_by_key(key).expect("engine key");
+    let tag = format!("{prop}/{key}");
+    let out = run_batch(key, &tag, seed, runs, tier, Duration::from_secs(cap_s));
     let mut violation = None;
-    if let Some((idx, v, sc)) = out.violation {
-        eprintln!(
-            "[{prop}/{}] run {idx} violated: {} — {}; minimising (size {})",
-            e.name(),
-            v.class,
-            v.detail,
-            e.size(&sc)
-        );
-        let (msc, mv, steps) = minimise(e, sc, v, Duration::from_secs(if tier == Tier::Quick { 40 } else { 120 }));
-        eprintln!("[{prop}/{}] minimised in {steps} steps to size {}", e.name(), e.size(&msc));
-        let path = write_replay(prop, e.name(), seed, idx, &mv, &msc);
-        // the minimised file must reproduce in a fresh process
-        let exe = std::env::current_exe().unwrap();
-        let st = std::process::Command::new(exe)
-            .arg("replay")
-            .arg(&path)
-            .arg("--quiet")
-            .status();
-        match st {
-            Ok(s) if s.code() == Some(1) => {}
+    let hang_first = match (&out.violation, out.hung_at) {
+        (Some((i, _, _)), Some(h)) => h < *i,
+        (None, Some(_)) => true,
+        _ => false,
+    };
+    if hang_first {
+        let idx = out.hung_at.unwrap();
+        let sc = e.generate_dyn(&tag, seed, tier, idx);
+        let v = Violation::new("hang", format!("run {idx} made no progress for the stall limit (no seam reached): a call does not return"));
+        let path = write_replay(prop, key, seed, idx, &v, &sc);
+        eprintln!("[{tag}] run {idx} stalled; re-running it alone in a fresh process");
+        match confirm_in_fresh_process(&path) {
+            Some(124) => violation = Some((path, v)),
+            other => {
+                eprintln!("HARNESS-ERROR: stall of run {idx} did not reproduce in a fresh process ({other:?})");
+                std::process::exit(2);
+            }
+        }
+    } else if let Some((idx, v, sc)) = out.violation {
+        eprintln!("[{tag}] run {idx} violated: {} — {}", v.class, v.detail);
+        let budget = Duration::from_secs(if tier == Tier::Quick { 40 } else { 120 });
+        let (msc, mv, steps, before, after) = e.minimise_dyn(sc, v, budget);
+        eprintln!("[{tag}] minimised in {steps} steps: size {before} -> {after}");
+        let path = write_replay(prop, key, seed, idx, &mv, &msc);
+        match confirm_in_fresh_process(&path) {
+            Some(1) => {}
             other => {
                 eprintln!("HARNESS-ERROR: minimised replay {path} did not reproduce in a fresh process ({other:?})");
                 std::process::exit(2);
@@ -48,7 +94,7 @@ pub fn run_part<E: Engine>(prop: &str, e: &E, seed: u64, runs: u64, tier: Tier, 
         violation = Some((path, mv));
     }
     PartOut {
-        engine: e.name().to_string(),
+        engine: key.to_string(),
         runs: out.runs,
         stats: out.stats,
         wall: out.wall.as_secs_f64(),
@@ -61,7 +107,6 @@ pub struct CheckSpec {
     pub level: &'static str,
     pub rule: String,
     pub assumptions: Vec<String>,
-    pub components: Value,
 }
 
 pub fn finish(prop: &str, tier: Tier, seed: u64, spec: CheckSpec, parts: Vec<PartOut>, started: Instant) -> i32 {
@@ -109,24 +154,25 @@ pub fn finish(prop: &str, tier: Tier, seed: u64, spec: CheckSpec, parts: Vec<Par
         samples,
         extra: json!({
             "engines": engines,
-            "components": spec.components,
-            "workers": workers(),
-            "simulated_time": "gdsl has no clock; logical time is counted in calls / lock points / stream bytes under engines.*.stats.counters",
+            "components": components(),
+            "worker_processes": workers(),
+            "distinct_counting": "fingerprints are collected in 2^24-bit sketches per worker process and OR-ed; the reported numbers are set-bit counts, i.e. lower bounds of the number of distinct fingerprints",
+            "simulated_time": "gdsl has no clock; logical time is counted in calls / lock points / stream bytes (engines.*.stats.counters)",
         }),
         assumptions: spec.assumptions,
         wall_s: wall,
         violations: nviol,
     });
     if exit == 0 {
-        println!("OK property={prop} tier={} seed={seed} runs={evaluations} distinct={distinct} wall={wall:.1}s", tier.as_str());
+        println!("OK property={prop} tier={} seed={seed} runs={evaluations} distinct>={distinct} wall={wall:.1}s", tier.as_str());
     }
     exit
 }
 
 pub fn components() -> Value {
     json!({
-        "real": ["all gdsl code from /repo's working tree (built through the shadow manifest)", "std::sync::RwLock (wrapped)", "Rc/Arc", "serde_json", "serde_cbor", "hashbrown/ahash hashing"],
-        "simulated": ["thread scheduling and lock queue order (baton scheduler over the lock seam)", "ahash per-instance key source (hash seam)", "byte streams (simulated Read/Write)", "handle drop placement"],
+        "real": ["all gdsl code from /repo's working tree (built through the shadow manifest)", "std::sync::RwLock and Mutex (wrapped, real lock taken after the simulated grant)", "Rc/Arc", "serde_json", "serde_cbor", "hashbrown tables with ahash hashing"],
+        "simulated": ["thread scheduling and lock queue order (baton scheduler over the lock seam)", "ahash per-instance key source (hash seam)", "byte streams (simulated Read/Write, stored-document mutation)", "handle drop placement"],
         "stubbed": []
     })
 }
@@ -140,37 +186,54 @@ fn budget(tier: Tier, quick: u64, thorough: u64) -> u64 {
 
 pub fn check(prop: &str, tier: Tier, seed: u64) -> i32 {
     let started = Instant::now();
-    let cap = budget(tier, 120, 900);
+    let cap = budget(tier, 150, 1200);
     match prop {
         "C03" => {
-            let e = Hist { verdict: Verdict::Contract };
-            let p = run_part(prop, &e, seed, budget(tier, 60_000, 600_000), tier, cap, "state_op_outcome");
+            let p = run_part(prop, "hist:contract", seed, budget(tier, 400_000, 6_000_000), tier, cap, "state_op_outcome");
             finish(
                 prop,
                 tier,
                 seed,
                 CheckSpec {
                     level: "exploration",
-                    rule: "seeded histories of connect/try_connect/disconnect/isolate/queries over the four flavours, every call made through a simulator-chosen handle provenance, checked call by call against the reference multigraph from both endpoints; distinct = distinct (abstract state shape, operation, subject, outcome class) tuples executed; tasks=1 (lock seam active in the sync flavours to report self-deadlock)".into(),
+                    rule: "seeded histories of connect/try_connect/disconnect/isolate/queries over the four flavours, every call made through a simulator-chosen handle provenance, checked call by call against the reference multigraph and read back from both endpoints; distinct = distinct (abstract state shape, operation, subject, outcome class) tuples executed; tasks=1 (lock seam active in the sync flavours to report self-deadlock)".into(),
                     assumptions: vec!["all nodes stay alive for the whole run".into(), "reference model states only what C03 states (disconnect may remove any one live edge of the pair)".into()],
-                    components: components(),
                 },
                 vec![p],
                 started,
             )
         }
         "C01" | "C02" => {
-            let e = Hist { verdict: if prop == "C01" { Verdict::Mirror } else { Verdict::Symmetry } };
-            let p = run_part(prop, &e, seed, budget(tier, 40_000, 400_000), tier, cap, "state_op_outcome");
+            let (hk, ck) = if prop == "C01" { ("hist:mirror", "conc:mirror") } else { ("hist:symmetry", "conc:symmetry") };
+            let p1 = run_part(prop, hk, seed, budget(tier, 250_000, 4_000_000), tier, cap, "state_op_outcome");
+            let p2 = run_part(prop, ck, seed, budget(tier, 40_000, 600_000), tier, cap, "interleavings");
             finish(
                 prop,
                 tier,
                 seed,
                 CheckSpec {
                     level: "exploration",
-                    rule: "seeded histories of edge operations; after every call the invariant is evaluated on the real nodes through the public API only (lists, degrees, predicates, lookups of both endpoints); distinct = distinct (abstract state shape, operation, subject, outcome class) tuples after which the invariant was evaluated".into(),
+                    rule: "hist: seeded histories of edge operations, invariant evaluated on the real nodes through the public API after every call (distinct = (abstract state shape, operation, subject, outcome class) tuples). conc: seeded concurrent scenarios on the sync flavour under the seeded scheduler, invariant evaluated at quiescence (distinct = (scenario, lock-grant sequence) pairs)".into(),
                     assumptions: vec!["all nodes stay alive for the whole run".into()],
-                    components: components(),
+                },
+                vec![p1, p2],
+                started,
+            )
+        }
+        "C17" => {
+            let p = run_part(prop, "conc", seed, budget(tier, 150_000, 3_000_000), tier, cap, "interleavings");
+            finish(
+                prop,
+                tier,
+                seed,
+                CheckSpec {
+                    level: "exploration",
+                    rule: "seeded concurrent scenarios (2-4 simulated caller threads x 1-7 calls over 1-5 shared sync nodes, seeded initial edges incl. self-loops and parallel edges) run under a seeded scheduler that decides every interleaving of lock acquisitions and the lock's queueing policy (writer preference on/off); verdicts: deadlock, step-budget overrun, panic/poison, quiescent mirror/symmetry invariant, serialisability of the mutating calls' return values and final graph against the reference model; distinct = distinct (scenario, sequence of lock grants) pairs".into(),
+                    assumptions: vec![
+                        "context switches only at lock acquisitions: all shared mutable state of the sync flavours lives under the per-node RwLock and the mutation mutex".into(),
+                        "all nodes stay alive for the whole run".into(),
+                        "std::sync::RwLock behaviour is over-approximated by {writer preference on, off} x any wake order".into(),
+                    ],
                 },
                 vec![p],
                 started,
@@ -198,18 +261,11 @@ pub fn replay(path: &str, quiet: bool) -> i32 {
             return 2;
         }
     };
-    let res = match (rf.engine.as_str(), rf.property.as_str()) {
-        ("hist", p) => {
-            let verdict = match p {
-                "C01" => Verdict::Mirror,
-                "C02" => Verdict::Symmetry,
-                _ => Verdict::Contract,
-            };
-            replay_scenario(&Hist { verdict }, &rf)
-        }
-        (e, _) => Err(format!("unknown engine {e}")),
+    let Some(e) = engine_by_key(&rf.engine) else {
+        eprintln!("HARNESS-ERROR: unknown engine {}", rf.engine);
+        return 2;
     };
-    match res {
+    match e.replay_dyn(&rf.scenario) {
         Err(m) => {
             eprintln!("HARNESS-ERROR: {m}");
             2
@@ -224,15 +280,11 @@ pub fn replay(path: &str, quiet: bool) -> i32 {
             if !quiet {
                 println!("VIOLATION property={} replay={path}", rf.property);
                 println!("  class={} detail={}", v.class, v.detail);
-            }
-            if v.class == rf.violation.class {
-                1
-            } else {
-                if !quiet {
+                if v.class != rf.violation.class {
                     println!("  (recorded class was {})", rf.violation.class);
                 }
-                1
             }
+            1
         }
     }
 }
